@@ -1363,9 +1363,9 @@ def run(c):
         "least-squares quality and constraint satisfaction between test points are numerical: checked per "
         "instance against an independent QP / lstsq reference, not proved",
     ]
-    from .translate_c20 import gen_bspline, gen_reverse_domain
+    from .translate_c20 import gen_bspline, gen_bspline2d, gen_fit_cache, gen_reverse_domain
 
-    c.prove(extra=gen_bspline(c) + gen_reverse_domain(c))  # + BSpline.basis / BSpline1D.__call__ translated from the source on every run
+    c.prove(extra=gen_bspline(c) + gen_reverse_domain(c) + gen_bspline2d(c) + gen_fit_cache(c))  # + BSpline.basis / BSpline1D.__call__ translated from the source on every run
     nexh = stream_exhaustive(c, c.big)
     stream_eval1d(c, c.n(40, 1200))
     stream_eval2d(c, c.n(16, 400))
